@@ -25,6 +25,7 @@ def check(ctx):
     P = ctx.program
     sources(ctx, P)
     isolation(ctx, P)
+    orders(ctx, P)
     globals_(ctx, P)
     ctx.assume("user-supplied callables (baulking functions, routing functions, custom distributions) are deterministic given the two streams")
     ctx.assume("Schedule.initialise() re-initialises the shared object: sufficient for sequential reuse; two live simulations sharing one schedule are outside the property's wording")
@@ -196,6 +197,47 @@ def isolation(ctx, P):
                           "%s is used by reference from the Network; it may hold an object with run-time state (%s), so a second Simulation built from the same Network "
                           "continues where the first one stopped instead of starting fresh" % (field, ", ".join("%s.%s" % (c, "/".join(sorted(st[c]))) for c in bad[:4])), loc(x))
     ctx.floor("borrow sites of stateful Network fields", n, 7)
+
+
+def orders(ctx, P):
+    ob = ctx.ob("ORDER", "sequences of class names that fix iteration (hence sampling) order are sorted; per-class dictionaries consumed by sampling loops are built over that sorted list")
+    n = 0
+    for ci, fn in P.all_functions():
+        for x in ast.walk(fn):
+            if isinstance(x, ast.Assign):
+                t = unparse(x.targets[0])
+                if t.endswith("class_names") or t.endswith("class_names']") or t.endswith('class_names"]'):
+                    v = x.value
+                    uses_keys = any(isinstance(y, ast.Call) and isinstance(y.func, ast.Attribute) and y.func.attr == "keys" for y in ast.walk(v))
+                    if uses_keys:
+                        n += 1
+                        ob.ok("%s:%s" % (P.func_name(fn), t), "%s: %s" % (P.func_name(fn), unparse(x)[:80]))
+                        if not (isinstance(v, ast.Call) and isinstance(v.func, ast.Name) and v.func.id == "sorted"):
+                            ctx.violation(ob, "R10.iteration-order", P.func_name(fn), unparse(x)[:100], "class-names-not-sorted",
+                                          "the list of class names is taken in dictionary insertion order: two parameter sets that compare equal would then sample in different orders", loc(x))
+    ctx.floor("class-name lists built from dict keys", n, 2)
+    # sampling loops over a dict: the dict must be built over the sorted class names
+    for ci, fn in P.all_functions():
+        for lp in [x for x in ast.walk(fn) if isinstance(x, ast.For)]:
+            it = lp.iter
+            if not (isinstance(it, ast.Call) and isinstance(it.func, ast.Attribute) and it.func.attr in ("items", "keys", "values")):
+                continue
+            if not any(isinstance(y, ast.Call) and call_name(y) in ("sample", "_sample", "random_choice", "random") for y in ast.walk(lp)):
+                continue
+            field = it.func.value.attr if isinstance(it.func.value, ast.Attribute) else unparse(it.func.value)
+            ob.ok("%s:loop-over-%s" % (P.func_name(fn), field), "%s samples while iterating %s" % (P.func_name(fn), unparse(it)[:70]))
+            # construction site(s) of a dict of that name in import_params: comprehension / loops over params['customer_class_names']
+            built = []
+            for c2, f2 in P.all_functions():
+                if f2._module.name != "ciw.import_params":
+                    continue
+                for y in ast.walk(f2):
+                    if isinstance(y, ast.Assign) and unparse(y.targets[0]) == field and isinstance(y.value, ast.DictComp):
+                        gens = [unparse(g.iter).replace('"', "'") for z in ast.walk(y.value) if isinstance(z, ast.DictComp) for g in z.generators]
+                        built.append(gens)
+            if not built or any(g != "params['customer_class_names']" for gens in built for g in gens):
+                ctx.violation(ob, "R10.iteration-order", P.func_name(fn), "for ... in %s" % unparse(it)[:80], "sampling-order-from-user-dict",
+                              "random numbers are drawn while iterating a dictionary whose key order is not fixed by the sorted class names", loc(lp))
 
 
 def globals_(ctx, P):
